@@ -222,9 +222,21 @@ def check_byte_xor(ctx, rule, P):
         return
     ev = evaluate(fn)
     pushes = [s for s in ev.sites.values() if s.callee[0] == "Vec::<T, A>::push"]
-    ok = bool(pushes) and pushes[0].args[1].op == "bin" and pushes[0].args[1].a[0] == "BitXor"
-    zips = [a for a in F.adapter_calls(fn) if a[1] == "zip"]
-    ctx.ob(rule, "helpers::byte_xor", ok and len(zips) == 1, "byte_xor pushes a[i]^b[i] for every zipped position (zip is the defining idiom here)", where=where(fn))
+    ok_loop = bool(pushes) and pushes[0].args[1].op == "bin" and pushes[0].args[1].a[0] == "BitXor" and all(r[1] for r in F.loops_push_every_iteration(fn))
+    # equivalent idiom: zip(..).map(|(a, b)| a ^ b).collect()
+    ok_map = False
+    for g in P.fns.values():
+        if g.kind == "Closure" and g.j.get("parent_key") == fn.key:
+            r = evaluate(g).ret
+            if r.op == "bin" and r.a[0] == "BitXor":
+                ok_map = any(s.callee[0] == "Iterator::map" for s in ev.sites.values()) and any(s.callee[0] == "Iterator::collect" for s in ev.sites.values())
+    zips = [s for s in ev.sites.values() if s.callee[0] == "Iterator::zip"]
+    both = False
+    if zips:
+        roots = {x.a[1] for a in zips[0].args for x in subterms(a) if x.op == "param"}
+        both = roots == {fn.locals[1].get("name"), fn.locals[2].get("name")}
+    others = [a for a in F.adapter_calls(fn) if a[1] in F.ELEMENT_DROPPING and a[1] != "zip"]
+    ctx.ob(rule, "helpers::byte_xor", (ok_loop or ok_map) and len(zips) == 1 and both and not others, "byte_xor yields a[i]^b[i] for every position of zip(arr1, arr2) (loop-push=%s, map/collect=%s)" % (ok_loop, ok_map), where=where(fn))
 
 
 # ---------------------------------------------------------------------------
